@@ -1241,8 +1241,8 @@ class Hist:
         if cone is None:
             return
         leaves, gates, outs = cone
-        if not outs or set(outs) & set(leaves):
-            return
+        if not outs or set(outs) & set(leaves) or len(leaves) > 11:
+            return  # (wide root gates can have more leaves than a cut-bounded cone; 2^leaves rows are simulated below)
         # manufacture a replacement: copy the cone under fresh labels, then rewrite it
         taken = set(net.gates)
         sub_in = {}
